@@ -16,6 +16,7 @@ import asyncio
 import ipaddress
 import json
 import os
+import re
 import random
 import sys
 import tempfile
@@ -55,7 +56,7 @@ def real_net(fam, base, ln, k, off, bg, bare_hosts):
 def decide_component(allow, deny, default, peer):
     ac = AccessControl(AccessControlConfig(allow_list=allow, deny_list=deny, default_allow=default))
     ok, resp = asyncio.run(ac.process_request("gemini://h/", peer, None))
-    if not ok and resp != "53 Access denied\r\n":
+    if not ok and not (isinstance(resp, str) and re.fullmatch(r"53 [^\r\n]{0,1024}\r\n", resp)):
         return "bad:%r" % (resp,)
     return "admit" if ok else "refuse53"
 
@@ -115,7 +116,7 @@ def decide(component, peer):
     if _LOOP is None:
         _LOOP = asyncio.new_event_loop()
     ok, resp = _LOOP.run_until_complete(component.process_request("gemini://h/", peer, None))
-    if not ok and resp != "53 Access denied\r\n":
+    if not ok and not (isinstance(resp, str) and re.fullmatch(r"53 [^\r\n]{0,1024}\r\n", resp)):
         return "bad:%r" % (resp,)
     return "admit" if ok else "refuse53"
 
@@ -165,7 +166,8 @@ class Assembled:
         if not tr.lost and tr.pending_lost is not None:
             self.loop.call(tr.deliver_lost)
         if status == b"53":
-            return "refuse53" if bytes(tr.wire) == b"53 Access denied\r\n" else "bad:%r" % bytes(tr.wire[:40])
+            # status 53, one header line, no body: the wording of the text is not fixed by the property
+            return "refuse53" if re.fullmatch(rb"53 [^\r\n]{0,1024}\r\n", bytes(tr.wire)) else "bad:%r" % bytes(tr.wire[:40])
         return "admit" if status in (b"20", b"51") else "bad:%r" % bytes(tr.wire[:40])
 
     def close(self):
